@@ -1,4 +1,4 @@
-\* Both transcriptions side by side (module IniTrace): the repairs are conservative, and the pinned tree satisfies
+\* Both transcriptions side by side (module IniTrace): the specification holds and the pinned tree satisfies
 \* the restricted properties.
 CONSTANTS Alphabet <- Alpha12
           MaxLen = 4
@@ -7,5 +7,5 @@ CONSTANTS Alphabet <- Alpha12
           ValAlphabet <- ValAlpha
           StrLen = 1
 SPECIFICATION RSpec
-INVARIANTS RepairsConservative PinnedRestricted
+INVARIANTS Combined
 CHECK_DEADLOCK FALSE
